@@ -1,6 +1,8 @@
 package main
 
 import (
+	"strconv"
+	"regexp"
 	"sync/atomic"
 	"sync"
 	"log/slog"
@@ -140,8 +142,18 @@ func dispatchEvents(w *tr.Writer) {
 		p := tr.Recover(func() {
 			m1, e1 := h.GetMessage(msmFrame(rng, t, late))
 			m2, e2 := h.GetMessage(msmFrame(rng, t, early))
-			if e1 != nil || e2 != nil || m1 == nil || m2 == nil {
+			m3, e3 := h.GetMessage(msmFrame(rng, t, early+1000)) // and the week stays rolled over for the messages that follow
+			if e1 != nil || e2 != nil || e3 != nil || m1 == nil || m2 == nil || m3 == nil {
 				ev["err"] = "conversion failed"
+				return
+			}
+			if c, ok := parseShown(m3.SentAt, "Time ", base); ok {
+				if b, ok2 := parseShown(m2.SentAt, "Time ", base); ok2 && ((c[0]-b[0])*weekMs+c[1]-b[1] != 1000 || m3.StartOfWeek != m2.StartOfWeek) {
+					ev["err"] = "the message after the roll-over message is not one second later in the same week"
+					return
+				}
+			} else {
+				ev["err"] = "time not shown"
 				return
 			}
 			a, ok1 := parseShown(m1.SentAt, "Time ", base)
@@ -195,6 +207,19 @@ func c20Concurrent(w *tr.Writer) {
 	}
 }
 
+var typeMention = regexp.MustCompile(`[Mm]essage type (-?\d+)`)
+
+// ownType: whenever the display of a message says "message type N", N is the message's own type (a display that
+// describes another type contradicts the classification it was dispatched on)
+func ownType(display string, t int) bool {
+	for _, m := range typeMention.FindAllStringSubmatch(display, -1) {
+		if n, err := strconv.Atoi(m[1]); err != nil || n != t {
+			return false
+		}
+	}
+	return true
+}
+
 func c20(args []string) {
 	w := tr.NewWriter(args[0])
 	defer w.Close()
@@ -241,7 +266,7 @@ func c20(args []string) {
 				h2 := handler.New(start, slog.LevelInfo)
 				m2, _ := h2.GetMessage(frame)
 				d2 := m2.String()
-				ev.Display = len(d1) > 0 && len(d2) > 0
+				ev.Display = len(d1) > 0 && len(d2) > 0 && ownType(d1, t) && ownType(d2, t)
 				ev.TimeLines = m.SentAt != "" && m.StartOfWeek != "" &&
 					strings.Contains(d1, m.SentAt+"\n") && strings.Contains(d2, m2.StartOfWeek+"\n")
 			})
